@@ -26,18 +26,24 @@ RULE = (
     "every header (D, size, spacing, origin, direction) of the listed product - all 8 / 48 signed permutation "
     "matrices and the generic rotations of the seed's table - through every construction route, compared with "
     "SimpleITK's own index<->physical maps on the complete continuous-index lattice; header -> Grid -> header "
-    "chains of 3 rounds; distinct outcome = exact bytes of the mapped lattice / headers; non-trivial = "
-    "direction differs from identity or origin differs from 0"
+    "chains of 3 rounds; argument-aliasing histories (second grid from the same argument objects); and all "
+    "histories construct(origin= | center= | from_sitk) -> (query, setter){1,2} on ONE live Grid over the setter "
+    "alphabet {spacing, direction, origin, center, align_corners} x {in-place, copying} + clone and the query "
+    "alphabet {none, affine, inverse_affine, origin, index_to_world, ...}, every view (origin, center, affine, "
+    "index<->world, Image.sitk() header, from_sitk of it) judged in EVERY reached state against the ITK image "
+    "carrying the header the grid itself reports; distinct outcome = exact bytes of the mapped lattice / headers; "
+    "non-trivial = direction differs from identity or origin differs from 0"
 )
-EXPLANATION = "exhaustive product of image geometries and construction routes judged by SimpleITK's physical-point transforms"
+EXPLANATION = "exhaustive product of image geometries, construction routes and query/setter histories on live grids, judged by SimpleITK's physical-point transforms"
 ASSUMPTIONS = [
     "SimpleITK 2.x (ITK) index<->physical point transforms are the trusted oracle; headers hold float64, deepali grids float32",
     "tolerance = 64 * 2^-23 * (|L^-1| (|A||x| + |center| + extent) + |y|) (+ 0.5e-6 for default-rounded indices); header fields 64 ulp(float32) of their magnitude scale",
     "directions: signed permutations (det +1 and -1, both accepted by Grid and ITK) and proper generic rotations; CPU only",
+    "histories: a setter must read back the value set, leave size and the attributes it does not address unchanged (copying forms: leave the source grid unchanged); which of origin/center a spacing or direction setter holds fixed is not judged - only that all views agree with ITK for the reported header",
 ]
 MIN_NONTRIVIAL = {"quick": 400, "thorough": 2500}
 MIN_OUTCOMES = {"quick": 30000, "thorough": 190000}
-MIN_SUB_TRACES = {"construct-origin": 300, "construct-center": 300, "from_sitk": 300, "chain": 300, "file": 300, "gridattrs": 300, "aliasing": 300}
+MIN_SUB_TRACES = {"construct-origin": 300, "construct-center": 300, "from_sitk": 300, "chain": 300, "file": 300, "gridattrs": 300, "aliasing": 300, "history": 7000}
 
 
 # ---------------------------------------------------------------------------
@@ -110,6 +116,8 @@ def index_values(n: int, tier: str):
 
 
 def index_lattice(size, tier: str) -> np.ndarray:
+    if tier == "history":  # reduced lattice judged in every state of a setter history
+        return np.array(list(itertools.product(*[[-1.5, 0.25, float(n - 1)] for n in size])), dtype=np.float64)
     return np.array(list(itertools.product(*[index_values(n, tier) for n in size])), dtype=np.float64)
 
 
@@ -140,6 +148,9 @@ def bounds(tier):
             "index_lattice_values_per_axis": len(index_values(5, tier)),
         }
     b["routes"] = list(SUBS)
+    b["history"] = {"routes": list(H_ROUTES), "queries": list(H_QUERIES[tier]), "setters": list(H_SETTERS), "depth_query_setter_pairs": H_DEPTH,
+                    "directions": {"D2": len(history_dirs(2, tier, 0)), "D3": len(history_dirs(3, tier, 0))}, "queries_second_pair": list(H_QUERIES2[tier]),
+                    "histories_per_route_and_direction": (len(H_QUERIES[tier]) * len(H_SETTERS)) * (1 + len(H_QUERIES2[tier]) * len(H_SETTERS))}
     b["chain_rounds"] = 3
     return b
 
@@ -224,16 +235,16 @@ def cmp(got, exp, tol):
     return None
 
 
-def check_grid_maps(sink: Sink, cx: Ctx, sub: str, g, what: str, full: bool = True, case_sub: str = None):
+def check_grid_maps(sink: Sink, cx: Ctx, sub: str, g, what: str, full: bool = True, case_sub: str = None, case: dict = None):
     """index<->world of a real grid against the ITK oracle on the lattice, and the stated equivalences."""
     D = cx.D
-    case = cx.case(case_sub or sub)
+    case = case if case is not None else cx.case(case_sub or sub)
     ok = True
 
     def emit(call, kind, detail):
         nonlocal ok
         ok = False
-        sink.violation(f"C02/{sub}/{call}/{kind}{cx.suffix}", case, f"{what} {call}: {detail} [size {cx.cfg['size']} spacing {cx.cfg['spacing']} origin {cx.cfg['origin']} dir {cx.cfg['dir']}]", size=1)
+        sink.violation(f"C02/{sub}/{call}/{kind}{cx.suffix}", case, f"{what} {call}: {detail} [size {cx.cfg['size']} spacing {cx.cfg['spacing']} origin {cx.cfg['origin']} dir {cx.cfg['dir']}]", size=max(1, len(case.get("ops", [0]))))
 
     def run(call, fn, exp, tol):
         sink.trans()
@@ -691,6 +702,258 @@ def sub_aliasing(sink: Sink, cx: Ctx):
 SUBS = ("construct-origin", "construct-center", "from_sitk", "chain", "file", "gridattrs", "aliasing")
 
 
+# ---------------------------------------------------------------------------
+# histories on ONE live Grid object: construct -> (query, setter) -> (query, setter); every view judged in
+# every reached state against the ITK image that carries the header the grid itself reports
+H_ROUTES = ("origin", "center", "from_sitk")
+H_QUERIES = {"quick": ("none", "affine", "inverse_affine", "origin", "index_to_world"),
+             "thorough": ("none", "affine", "inverse_affine", "origin", "index_to_world", "world_to_index", "transform")}
+# queries of the second (query, setter) pair: quick uses none / index_to_world (the latter evaluates affine and origin)
+H_QUERIES2 = {"quick": ("none", "index_to_world"), "thorough": H_QUERIES["thorough"]}
+H_SETTERS = ("spacing_", "spacing", "direction_", "direction", "origin_", "origin", "center_", "center", "align_corners_", "align_corners", "clone")
+H_DEPTH = 2
+
+
+def history_dirs(D: int, tier: str, seed: int):
+    """Indices into directions(): one non-symmetric proper permutation, one improper, one generic and one
+    almost-aligned rotation (quick); thorough adds the identity, a second of each class."""
+    dirs = directions(D, tier, seed)
+    # quick: the four orientation classes are split over the two dimensions (histories exercise state, not orientation)
+    want = ({"perm+": 1, "rot": 1} if D == 2 else {"perm-": 1, "tiny": 1}) if tier == "quick" else {"perm+": 3, "perm-": 2, "rot": 2, "tiny": 1, "tinyperm-": 1}
+    out = []
+    for i, (cls, name, M) in enumerate(dirs):
+        if want.get(cls, 0) <= 0:
+            continue
+        if cls == "perm+" and tier == "quick" and np.allclose(M, M.T):
+            continue  # symmetric matrices hide a transposition
+        want[cls] -= 1
+        out.append(i)
+    return out
+
+
+def history_cfg(D: int, di: int, tier: str, seed: int):
+    cls, name, M = directions(D, tier, seed)[di]
+    size, s, o = ((5, 4), (0.5, 1.25), (10.5, -3.25)) if D == 2 else ((5, 4, 3), (0.5, 1.25, 2.0), (10.5, -3.25, 100.0))
+    return {"D": D, "size": list(size), "spacing": list(s), "origin": list(o), "direction": M.tolist(), "dir": name, "dircls": cls, "tier": "history", "seed": seed}
+
+
+def setter_value(cfg, name: str, k: int):
+    """The value given to the k-th (0/1) use of a setter in a history; deterministic function of the header."""
+    D = cfg["D"]
+    base = name.rstrip("_")
+    if base == "spacing":
+        fac = ((1.5, 0.4, 2.5), (0.6, 2.0, 0.5))[k][:D]
+        return (np.asarray(cfg["spacing"]) * np.asarray(fac)).tolist()
+    if base == "direction":
+        gen = fr.generic_rotations(D, cfg.get("seed", 0) + 2, 2)[k]
+        return (gen @ np.asarray(cfg["direction"])).tolist()
+    if base == "origin":
+        off = ((3.5, -7.25, 11.0), (-20.0, 0.75, 2.5))[k][:D]
+        return (np.asarray(cfg["origin"]) + np.asarray(off)).tolist()
+    if base == "center":
+        off = ((-2.25, 6.5, 1.75), (40.0, -1.5, -9.0))[k][:D]
+        return (np.asarray(cfg["origin"]) + np.asarray(off)).tolist()
+    return None
+
+
+def grid_views(g) -> bytes:
+    """Fingerprint of everything a caller can observe of a grid's geometry."""
+    D = g.ndim
+    probe = torch.tensor([[0.0] * D, [1.0] * D, [2.5, -1.0, 0.75][:D]])
+    return b"|".join([repr(tuple(g.size())).encode(), tensor_bytes(g.origin()), tensor_bytes(g.center()), tensor_bytes(g.spacing()),
+                      tensor_bytes(g.direction()), tensor_bytes(g.index_to_world(probe)), tensor_bytes(g.world_to_index(probe, decimals=None))])
+
+
+def run_history(sink: Sink, cfg, route: str, ops, judge_from: int = 0):
+    """Execute one history [(query, setter), ...] on a fresh grid; judge the states with index >= judge_from
+    (state 0 = the constructed grid, state k = after the k-th setter). Returns True if all judged states hold."""
+    from deepali.core.grid import Axes, Grid
+    from deepali.data import Image
+
+    D = cfg["D"]
+    cx0 = Ctx(cfg)
+    suffix = f"/dir={cfg['dircls']}"
+    opstr = "+".join(f"{q}>{st}" for q, st in ops) or "construct"
+    case = {"sub": "history", "cfg": cfg, "route": route, "ops": [list(o) for o in ops]}
+    ok = True
+
+    def emit(step, view, kind, detail):
+        nonlocal ok
+        ok = False
+        sink.violation(f"C02/history/{route}/{opstr}/step{step}/{view}/{kind}{suffix}", case, f"history {route}: {opstr}, state {step}: {view}: {detail}", size=len(ops))
+
+    def judge_state(g, step):
+        """All views of the live grid against the ITK image carrying the header the grid reports."""
+        nonlocal ok
+        sink.trans(4)
+        st, h = guarded(lambda: (tuple(int(v) for v in g.size()), as_np(g.origin()), as_np(g.spacing()), as_np(g.direction())))
+        if st == "raises":
+            emit(step, "header", "raises=" + type(h).__name__, exc_text(h))
+            return
+        cfgH = dict(cfg, size=list(h[0]), origin=h[1].tolist(), spacing=h[2].tolist(), direction=h[3].tolist())
+        st, cxH = guarded(Ctx, cfgH)
+        if st == "raises":
+            emit(step, "header", "not-an-ITK-header", exc_text(cxH))
+            return
+        if not check_grid_maps(sink, cxH, f"history/{route}/{opstr}/step{step}", g, f"history {route}: {opstr}, state {step}", full=True, case=case):
+            ok = False
+            return
+        # affine() is direction @ diag(spacing) of the reported header; inverse_affine() its inverse
+        sink.trans(2)
+        st, r = guarded(lambda: (as_np(g.affine()), as_np(g.inverse_affine())))
+        if st == "raises":
+            emit(step, "affine", "raises=" + type(r).__name__, exc_text(r))
+        else:
+            A = h[3] * h[2][None, :]
+            tolA = C * EPS32 * float(np.abs(A).max())
+            if r[0].shape != A.shape or float(np.abs(r[0] - A).max()) > tolA:
+                emit(step, "affine", "value", f"affine() {r[0].round(5).tolist()} vs direction()*spacing() {A.round(5).tolist()}")
+            elif r[1].shape != A.shape or float(np.abs(r[1] @ A - np.eye(D)).max()) > C * EPS32 * D * float(np.abs(h[2]).max() / np.abs(h[2]).min()):
+                emit(step, "inverse_affine", "value", f"inverse_affine() @ affine != I: {(r[1] @ A).round(5).tolist()}")
+        # header written by Image.sitk() and the grid read back from it
+        shape = tuple(int(v) for v in reversed(h[0]))
+        sink.trans(2)
+        st, out = guarded(lambda: Image(torch.zeros((1,) + shape), g).sitk())
+        if st == "raises":
+            emit(step, "Image.sitk", "raises=" + type(out).__name__, exc_text(out))
+            return
+        bad = cmp_header(cxH, header_of(out), header_of(cxH.img))
+        if bad:
+            emit(step, "Image.sitk", "header-" + bad[0], bad[1])
+            return
+        p2 = itk_points(out, cxH.idx)
+        if float(np.abs(p2 - cxH.pts).max()) > cxH.tol_w:
+            emit(step, "Image.sitk", "physical-points", f"ITK physical points of the written header differ by {np.abs(p2 - cxH.pts).max():.3e}")
+        st, g2 = guarded(lambda: Grid.from_sitk(out))
+        if st == "raises":
+            emit(step, "from_sitk(sitk())", "raises=" + type(g2).__name__, exc_text(g2))
+        else:
+            bad = cmp(guarded(lambda: g2.index_to_world(torch.tensor(cxH.idx, dtype=torch.float32)))[1], cxH.pts, 2 * cxH.tol_w)
+            if bad:
+                emit(step, "from_sitk(sitk())", bad[0], bad[1])
+        sink.outcome(cx0.key, route, opstr, step, h[1].tobytes(), h[2].tobytes(), h[3].tobytes())
+        sink.state(cx0.key, route, "history", h[1].round(4).tobytes(), h[2].round(5).tobytes(), h[3].round(5).tobytes())
+
+    # -- construct ---------------------------------------------------------
+    sink.trans()
+    if route == "origin":
+        st, g = guarded(lambda: Grid(origin=tuple(cfg["origin"]), **grid_kwargs(cfg)))
+    elif route == "center":
+        st, g = guarded(lambda: Grid(center=tuple(cx0.center.tolist()), **grid_kwargs(cfg)))
+    else:
+        st, g = guarded(lambda: Grid.from_sitk(cx0.img))
+    if st == "raises":
+        emit(0, "construct", "raises=" + type(g).__name__, exc_text(g))
+        return False
+    if judge_from <= 0:
+        judge_state(g, 0)
+        if not ok:
+            return False
+    used = {}
+    for step, (q, setter) in enumerate(ops, start=1):
+        # -- query (fills whatever the implementation may cache) --------------
+        idx = torch.tensor(cx0.idx[:4], dtype=torch.float32)
+        qfn = {
+            "none": lambda: None, "affine": lambda: g.affine(), "inverse_affine": lambda: g.inverse_affine(), "origin": lambda: g.origin(),
+            "index_to_world": lambda: g.index_to_world(idx), "world_to_index": lambda: g.world_to_index(idx), "transform": lambda: g.transform(Axes.GRID, Axes.WORLD),
+        }[q]
+        sink.trans()
+        st, r = guarded(qfn)
+        if st == "raises":
+            emit(step, "query-" + q, "raises=" + type(r).__name__, exc_text(r))
+            return False
+        # -- setter -----------------------------------------------------------
+        base = setter.rstrip("_")
+        k = used.get(base, 0)
+        used[base] = k + 1
+        inplace = setter.endswith("_")
+        st, before = guarded(lambda: (grid_views(g), tuple(g.size()), as_np(g.spacing()).copy(), as_np(g.direction()).copy(), g.align_corners()))
+        if st == "raises":
+            emit(step, "views", "raises=" + type(before).__name__, exc_text(before))
+            return False
+        if setter == "clone":
+            val = None
+            call = lambda: g.clone()  # noqa: E731
+        elif base == "align_corners":
+            val = not before[4]
+            call = lambda: getattr(g, setter)(val)  # noqa: E731
+        else:
+            val = setter_value(cfg, setter, k)
+            call = lambda: getattr(g, setter)(tuple(val) if base != "direction" else val)  # noqa: E731
+        sink.trans()
+        st, res = guarded(call)
+        if st == "raises":
+            emit(step, setter, "raises=" + type(res).__name__, exc_text(res))
+            return False
+        if not isinstance(res, Grid):
+            emit(step, setter, "type", f"returned {type(res).__name__}")
+            return False
+        if not inplace:
+            # copying form: the grid it was called on is untouched, the result is another object
+            st, after = guarded(grid_views, g)
+            if st == "raises" or after != before[0] or g.align_corners() != before[4]:
+                emit(step, setter, "source-grid-changed", "the grid the copying setter was called on changed")
+                return False
+            if res is g:
+                emit(step, setter, "not-a-copy", "copying form returned the same object")
+                return False
+            g = res
+        # else: in-place form: keep judging the SAME object g
+        # read back what was set; the attributes not addressed by the setter are unchanged
+        st, now = guarded(lambda: (tuple(g.size()), as_np(g.spacing()), as_np(g.direction()), g.align_corners(), as_np(g.origin()), as_np(g.center())))
+        if st == "raises":
+            emit(step, setter, "raises=" + type(now).__name__, exc_text(now))
+            return False
+        mag = C * EPS32 * float(np.abs(now[4]).max() + np.abs(now[5]).max() + np.abs(now[1] * np.asarray(now[0])).max() + 1.0)
+        if base == "spacing" and float(np.abs(now[1] - np.asarray(val)).max()) > C * EPS32 * max(val):
+            emit(step, setter, "readback", f"spacing() {now[1].tolist()} after setting {val}")
+        if base == "direction" and float(np.abs(now[2] - np.asarray(val)).max()) > C * EPS32:
+            emit(step, setter, "readback", f"direction() {now[2].round(6).tolist()} after setting {np.asarray(val).round(6).tolist()}")
+        if base == "origin" and float(np.abs(now[4] - np.asarray(val)).max()) > mag:
+            emit(step, setter, "readback", f"origin() {now[4].tolist()} after setting {val}")
+        if base == "center" and float(np.abs(now[5] - np.asarray(val)).max()) > mag:
+            emit(step, setter, "readback", f"center() {now[5].tolist()} after setting {val}")
+        if base == "align_corners" and now[3] != val:
+            emit(step, setter, "readback", f"align_corners() {now[3]} after setting {val}")
+        if now[0] != before[1]:
+            emit(step, setter, "size-changed", f"size {now[0]} was {before[1]}")
+        if base != "spacing" and not np.array_equal(now[1], before[2]):
+            emit(step, setter, "spacing-changed", f"spacing {now[1].tolist()} was {before[2].tolist()}")
+        if base != "direction" and not np.array_equal(now[2], before[3]):
+            emit(step, setter, "direction-changed", "direction changed by a setter that does not address it")
+        if base != "align_corners" and now[3] != before[4]:
+            emit(step, setter, "flag-changed", "align_corners changed by a setter that does not address it")
+        if base in ("align_corners", "clone"):
+            st, after = guarded(grid_views, g)
+            if st == "raises" or after != before[0]:
+                emit(step, setter, "geometry-changed", "the geometry changed although only the flag was set / the grid was cloned")
+        if not ok:
+            return False
+        if step >= judge_from:
+            judge_state(g, step)
+            if not ok:
+                return False
+    sink.trace("history", depth=len(ops))
+    return True
+
+
+def explore_histories(sink: Sink, cfg, route: str, tier: str):
+    """All histories (query, setter){1..H_DEPTH} from one construction route; states are rebuilt by replaying
+    the history on a fresh grid; a history is extended only if all its states held."""
+    Q, S = H_QUERIES[tier], H_SETTERS
+    if not run_history(sink, cfg, route, []):
+        return
+    for q1 in Q:
+        for s1 in S:
+            if not run_history(sink, cfg, route, [(q1, s1)], judge_from=1):
+                continue
+            if H_DEPTH < 2:
+                continue
+            for q2 in H_QUERIES2[tier]:
+                for s2 in S:
+                    run_history(sink, cfg, route, [(q1, s1), (q2, s2)], judge_from=2)
+
+
 def run_config(sink: Sink, cfg, tmpdir: str, only: str = None):
     cx = Ctx(cfg)
     R = np.asarray(cfg["direction"], dtype=np.float64)
@@ -720,6 +983,10 @@ def shards(tier: str, seed: int):
     for D in (2, 3):
         for di in range(len(directions(D, tier, seed))):
             out.append({"tier": tier, "seed": seed, "D": D, "dir": di})
+    for D in (2, 3):
+        for di in history_dirs(D, tier, seed):
+            for route in H_ROUTES:
+                out.append({"kind": "history", "tier": tier, "seed": seed, "D": D, "dir": di, "route": route})
     return out
 
 
@@ -730,6 +997,13 @@ def _tmpdir():
 def run_shard(shard) -> Acc:
     acc = Acc()
     sink = Sink(acc)
+    if shard.get("kind") == "history":
+        cfg = history_cfg(shard["D"], shard["dir"], shard["tier"], shard["seed"])
+        explore_histories(sink, cfg, shard["route"], shard["tier"])
+        sink.nontriv("history", shard["D"], shard["dir"], shard["route"])
+        acc.sample({"sub": "history", "route": shard["route"], "header": {k: cfg[k] for k in ("size", "spacing", "origin", "direction")},
+                    "example": [["affine", "spacing_"], ["origin", "direction"]], "judged": "every view vs the ITK image carrying the header the grid reports, in every state"})
+        return acc
     tmpdir = _tmpdir()
     try:
         cfgs = configs(shard["D"], shard["dir"], shard["tier"], shard["seed"])
@@ -744,6 +1018,9 @@ def run_shard(shard) -> Acc:
 
 def replay(case):
     sink = Sink(None)
+    if case["sub"] == "history":
+        run_history(sink, case["cfg"], case["route"], [tuple(o) for o in case["ops"]])
+        return sink.out
     tmpdir = _tmpdir()
     try:
         run_config(sink, case["cfg"], tmpdir, only=case["sub"])
